@@ -71,6 +71,8 @@ def run_bounded(inst, tier, seed, replay_dir):
            'evaluations': 0, 'valid': 0, 'distinct': 0, 'checked_clauses': 0, 'violations': [], 'samples': [],
            'error': None, 'undecided': [], 'obligations': [], 'tags': list(inst.tags)}
     seen = set()
+    if getattr(inst, 'fixed_seed', False):
+        seed = 0
     for i in range(n):
         s = seed * 1000003 + i
         try:
